@@ -41,7 +41,7 @@ class P0(Component):
     pass
 
 
-class P1(Component):
+class P1(P0):           # a subclass of P0: stores are keyed by the exact class (carrying P1 is not carrying P0)
     pass
 
 
